@@ -204,7 +204,14 @@ func driverFor(f Func, h *header, srcType string) string {
 
 	w("func semRun_%s(mode int) {\n", f.Name)
 	w("\tconst method = %q\n", f.Name)
-	w("\tdefer func() {\n\t\tif r := recover(); r != nil {\n\t\t\tsig := \"generated-function-panics\"\n\t\t\tif mode == 1 {\n\t\t\t\tsig = \"generated-function-panics-on-nil-nested-pointer\"\n\t\t\t}\n\t\t\tsemReport(method, sig, fmt.Sprintf(\"mode=%%d: %%v\", mode, r))\n\t\t}\n\t}()\n")
+	// the recorded finding: an explicit source path read through a pointer member (Nest.A, WhoP.Age()) while that
+	// pointer is nil; a panic of a function without such a path is something else
+	hop := regexp.MustCompile(`\.(Nest|WhoP)\.`).MatchString(f.Text)
+	// second recorded finding: an opted-in String() call on a pointer-typed member whose method has a value
+	// receiver dereferences the nil pointer at the call site
+	strHop := !hop && regexp.MustCompile(`= [A-Za-z_][A-Za-z0-9_.]*\.String\(\)`).MatchString(f.Text)
+	w("\tdefer func() {\n\t\tif r := recover(); r != nil {\n\t\t\tsig := \"generated-function-panics\"\n\t\t\tif mode == 1 && %v {\n\t\t\t\tsig = \"generated-function-panics-on-nil-nested-pointer\"\n\t\t\t}\n\t\t\tif mode == 1 && %v {\n\t\t\t\tsig = \"generated-function-panics-on-String-call-through-nil-pointer\"\n\t\t\t}\n\t\t\tif o := semPanicOrigin(); o != \"setup.gen.go\" {\n\t\t\t\t// the property excepts panics of user-supplied getters, String methods, converters and hooks\n\t\t\t\tsig = \"user-supplied-function-panicked:\" + o\n\t\t\t}\n", hop, strHop)
+	w("\t\t\tsemReport(method, sig, fmt.Sprintf(\"mode=%%d: %%v\", mode, r))\n\t\t}\n\t}()\n")
 	// operands
 	w("\t%s := fillNew[%s](1, mode)\n", srcP.Name, srcP.Type)
 	for i, a := range args {
